@@ -174,3 +174,6 @@ Definition telnet_handle_code : list dstmt :=
 (* transport/standard.go Standard.openBase *)
 Definition standard_open_base_code : list dstmt :=
   [DAssign "keyCallback" "ssh.InsecureIgnoreHostKey()"; DIf (DAtom "t.SSHArgs.StrictKey") [DIf (DEq "t.SSHArgs.KnownHostsFile" """""") [DReturn "error"] []; DCall "knownhosts.New(t.SSHArgs.KnownHostsFile)"; DIf (DNot (DEq "err" "nil")) [DReturn "err"] []; DAssign "keyCallback" "knownHosts"] []; DAssign "authMethods" "make([]ssh.AuthMethod, 0)"; DIf (DNot (DEq "t.SSHArgs.PrivateKeyPath" """""")) [DCall "os.ReadFile(t.SSHArgs.PrivateKeyPath)"; DIf (DNot (DEq "err" "nil")) [DReturn "err"] []; DCall "ssh.ParsePrivateKey(k)"; DIf (DNot (DEq "err" "nil")) [DReturn "err"] []; DAssign "authMethods" "append(authMethods, ssh.PublicKeys(signer))"] []; DIf (DNot (DEq "a.Password" """""")) [DAssign "authMethods" "append(authMethods, ssh.Password(a.Password), ssh.KeyboardInteractive( func(_, _ string, questions []string, _ []bool) ([]string, error) { answers := make([]string, len(questions)) for i := range answers { answers[i] = a.Password } return answers, nil }, ))"] []; DAssign "cfg" "&ssh.ClientConfig{ User: a.User, Auth: authMethods, Timeout: a.TimeoutSocket, HostKeyCallback: keyCallback, }"; DIf (DAtom "len(t.ExtraCiphers) > 0") [DAssign "cfg.Config.Ciphers" "append(cfg.Config.Ciphers, t.ExtraCiphers...)"] []; DIf (DAtom "len(t.ExtraKexs) > 0") [DAssign "cfg.Config.KeyExchanges" "append(cfg.Config.KeyExchanges, t.ExtraKexs...)"] []; DReturn "t.openSession(a, cfg)"].
+(* driver/network/acquirepriv.go Driver.processAcquirePriv *)
+Definition process_acquire_priv_code : list dstmt :=
+  [DCall "d.determineCurrentPriv(currentPrompt)"; DIf (DNot (DEq "err" "nil")) [DReturn """"", """", err"] []; DIf (DAtom "util.StringSliceContains(possiblePrivs, d.CurrentPriv)") [DAssign "current" "d.CurrentPriv"] [DIf (DAtom "util.StringSliceContains(possiblePrivs, target)") [DAssign "current" "d.PrivilegeLevels[target].Name"] [DAssign "current" "possiblePrivs[0]"]]; DIf (DEq "current" "target") [DAssign "d.CurrentPriv" "current"; DReturn "noAction, current, nil"] []; DAssign "mapTo" "d.buildPrivChangeMap(current, target, nil)"; DAssign "d.CurrentPriv" "unknownPriv"; DIf (DNot (DEq "d.PrivilegeLevels[mapTo[1]].PreviousPriv" "current")) [DReturn "deescalateAction, current, nil"] []; DReturn "escalateAction, d.PrivilegeLevels[mapTo[1]].Name, nil"].
